@@ -465,7 +465,7 @@ Proof.
     rewrite Cl3, Cb3. exists (length (w_closed s3)). unfold chunk_len. simpl. rewrite R3.
     rewrite firstn_all, skipn_all. simpl.
     repeat split; try lia; try assumption.
-    apply sl_whole. lia. }
+    fold cb. apply sl_whole. lia. }
   assert (KEEP : forall s1, inv i es s1 -> w_cur s1 <> None ->
      inv i es (add_toc (wr (cond_open s1) cb clen)
                  (mkT (e_id e) (if first then TReg else TChunk) (if first then e_size e else 0) (w_poff s1) (w_unc s1 - w_punc s1) coff csf))
@@ -485,9 +485,8 @@ Proof.
     rewrite firstn_all, skipn_all. simpl.
     replace (w_unc s1 - w_punc s1) with (N.of_nat (length p)) by lia.
     repeat split; try lia; try assumption.
-    - congruence.
     - rewrite app_length. lia.
-    - rewrite sl_app_r. rewrite <- Lcb. apply firstn_all. }
+    - rewrite sl_app_r. rewrite <- Lcb. fold cb. apply firstn_all. }
   destruct (o_min o <=? 0)%Z.
   - simpl in H. destruct (close_member s) as [s2| |] eqn:Cl; try discriminate. simpl in H. injection H as <-.
     exact (CLOSE s I s2 Cl).
